@@ -1,5 +1,6 @@
 """Llldp (LLDP codec sub-check: C19, C06, C07, C01; C05 does not apply) configuration for ./check"""
 CONF = {
+    'coq_sample': 12,   # cases re-evaluated inside Coq by vm_compute against the extracted runner's output
     'interesting': ['truncated-prefix-of-valid', 'mandatory-tlv', 'consistent-length-cut', 'tlv-length-extreme', 'nine-bit-length', 'mgmt-length-extreme', 'org-info-length',
                     'field-extreme', 'error-after-add', 'org-tlv', 'mgmt-address', 'dirty-buffer', 'no-fixlengths', 'odd-payload', 'roundtrip', 'out-of-domain',
                     'decode-error', 'malformed', 'seed'],
